@@ -129,7 +129,7 @@ def _gen_lifespan(rng, i):
     n = rng.choice([1, 2, 3, 5])
     order = list(range(n))
     rng.shuffle(order)
-    return {"family": "dispatch.lifespan", "kind": "lifespan", "n": n, "order": order, "lib": rng.choice(["asyncio", "trio"]),
+    return {"family": "dispatch.lifespan", "kind": "lifespan", "n": n, "order": order, "lib": rng.choice(["asyncio", "trio"]), "cycles": rng.choice([1, 1, 2]),
             "never": rng.choice([None, None, rng.randrange(n)])}
 
 
@@ -397,6 +397,26 @@ def _lifespan(case, tally):
     n = case["n"]
     log = []
     lib = case["lib"]
+    holder = {}
+
+    def mk(i):
+        async def app(scope, receive, send):
+            while True:
+                m = await receive()
+                if m["type"] == "lifespan.startup":
+                    await holder["gates"][i].wait()
+                    log.append(("mount-startup-complete", i))
+                    await send({"type": "lifespan.startup.complete"})
+                elif m["type"] == "lifespan.shutdown":
+                    await holder["sgates"][i].wait()
+                    log.append(("mount-shutdown-complete", i))
+                    await send({"type": "lifespan.shutdown.complete"})
+                    return
+        return app
+
+    # one middleware object for every lifespan of the case: the same application object served again (an in-process restart, a test
+    # suite) goes through a lifespan of its own each time
+    mw = (TrioDispatcherMiddleware if lib == "trio" else AsyncioDispatcherMiddleware)({"/m%d" % i: mk(i) for i in range(n)})
 
     async def run():
         if lib == "trio":
@@ -405,26 +425,8 @@ def _lifespan(case, tally):
             Event, sleep = trio.Event, trio.sleep
         else:
             Event, sleep = asyncio.Event, asyncio.sleep
-        gates = [Event() for _ in range(n)]
-        sgates = [Event() for _ in range(n)]
-
-        def mk(i):
-            async def app(scope, receive, send):
-                while True:
-                    m = await receive()
-                    if m["type"] == "lifespan.startup":
-                        await gates[i].wait()
-                        log.append(("mount-startup-complete", i))
-                        await send({"type": "lifespan.startup.complete"})
-                    elif m["type"] == "lifespan.shutdown":
-                        await sgates[i].wait()
-                        log.append(("mount-shutdown-complete", i))
-                        await send({"type": "lifespan.shutdown.complete"})
-                        return
-            return app
-
-        mounts = {"/m%d" % i: mk(i) for i in range(n)}
-        mw = (TrioDispatcherMiddleware if lib == "trio" else AsyncioDispatcherMiddleware)(mounts)
+        gates = holder["gates"] = [Event() for _ in range(n)]
+        sgates = holder["sgates"] = [Event() for _ in range(n)]
         inbox = []
         inbox_ev = Event()
 
@@ -472,7 +474,15 @@ def _lifespan(case, tally):
             except BaseException:
                 pass
 
-    _run(lib, run)
+    for cycle in range(case.get("cycles", 1)):
+        del log[:]
+        _run(lib, run)
+        out += _lifespan_judge(case, log, n, tally, cycle)
+    return out
+
+
+def _lifespan_judge(case, log, n, tally, cycle):
+    out = []
     tally.clause("dispatch-lifespan")
     # startup.complete upstream exactly once, after every mount completed
     def pos(ev):
@@ -481,7 +491,7 @@ def _lifespan(case, tally):
     mounts_done = [pos(("mount-startup-complete", i)) for i in range(n)]
     marker = pos(("after-startup-phase",))[0]
     if len(up) != 1:
-        out.append({"clause": "dispatch-lifespan", "sig": "C20.dispatch/lifespan-startup-count-%d" % len(up), "detail": "log %r" % log})
+        out.append({"clause": "dispatch-lifespan", "sig": "C20.dispatch/lifespan-startup-count-%d" % len(up), "detail": "lifespan #%d of the instance: log %r" % (cycle + 1, log)})
     else:
         if any(not m or m[0] > up[0] for m in mounts_done):
             out.append({"clause": "dispatch-lifespan", "sig": "C20.dispatch/lifespan-startup-early",
